@@ -96,6 +96,20 @@ func (e *vsEnv) newStage() {
 
 // settle waits until the stage shows no activity: both channels empty and an
 // unchanged signature of cache states / wait lists / directories for a while
+// vsOldestCmp: unix seconds of the oldest companion file below dir (0: there is none)
+func vsOldestCmp(dir string) int64 {
+	var oldest int64
+	filepath.Walk(dir, func(p string, info os.FileInfo, err error) error {
+		if err == nil && !info.IsDir() && strings.HasSuffix(p, compExt) {
+			if t := info.ModTime().Unix(); oldest == 0 || t < oldest {
+				oldest = t
+			}
+		}
+		return nil
+	})
+	return oldest
+}
+
 func (e *vsEnv) settle() {
 	s := e.st
 	last := ""
@@ -278,6 +292,8 @@ func verifStageCase(tmp string, caseNo int, ops []vsOp) string {
 			if op.rerr {
 				rd = &errReader{r: rd, err: errors.New("connection cut")}
 			}
+			objBefore := e.st.fromCache(filepath.Join(e.st.rootDir, p.name))
+			queuedBefore := len(e.st.validateCh)
 			if err := e.st.Receive(file, rd); err != nil {
 				w.WriteString(" 0")
 			} else {
@@ -289,9 +305,13 @@ func verifStageCase(tmp string, caseNo int, ops []vsOp) string {
 			// in flight are the subject of the concurrent suite)
 			if _, err := os.Stat(filepath.Join(e.stageDir, p.name+partExt)); err != nil {
 				if e.heldReal != nil {
-					// validation is held back: wait only until the file stands in the validators' queue
-					for i := 0; i < 200 && len(e.st.validateCh) == 0; i++ {
-						time.Sleep(500 * time.Microsecond)
+					// validation is held back: wait only until the file stands in the validators' queue (it is put
+					// there by a goroutine of its own; other files may be queued already)
+					objAfter := e.st.fromCache(filepath.Join(e.st.rootDir, p.name))
+					if objAfter != nil && objAfter != objBefore && objAfter.state == stateReceived {
+						for i := 0; i < 4000 && len(e.st.validateCh) <= queuedBefore; i++ {
+							time.Sleep(500 * time.Microsecond)
+						}
 					}
 				} else {
 					e.settle()
@@ -310,7 +330,17 @@ func verifStageCase(tmp string, caseNo int, ops []vsOp) string {
 				e.st.validateCh = e.heldReal
 				e.heldReal = nil
 				for len(held) > 0 {
-					e.st.validateCh <- <-held
+					// one validator becomes free: the backlog is worked off in queue order, one file at a time
+					f := <-held
+					pending := e.st.getFileState(f.path) == stateReceived
+					e.st.validateCh <- f
+					// (the hash check of this one is over when the name is no longer "received")
+					for i := 0; pending && i < 2000 && e.st.getFileState(f.path) == stateReceived; i++ {
+						time.Sleep(time.Millisecond)
+					}
+					if len(held) > 0 {
+						e.settle()
+					}
 				}
 			}
 			e.settle()
@@ -361,9 +391,11 @@ func verifStageCase(tmp string, caseNo int, ops []vsOp) string {
 				e.st.cleanTimeout.Stop()
 			}
 			e.newStage()
+			// (what Recover goes by when it reads the log back: the modification time of the oldest companion)
+			oldest := vsOldestCmp(e.stageDir)
 			e.st.Recover()
 			e.settle()
-			w.WriteString(" " + e.snapshot())
+			w.WriteString(fmt.Sprintf(" %d %s", oldest, e.snapshot()))
 		case "TF":
 			e.settle()
 			e.st.cacheLock.RLock()
@@ -466,13 +498,18 @@ func vsAgeAll(e *vsEnv, d time.Duration) {
 		s.cacheTimes[i] = s.cacheTimes[i].Add(-d)
 	}
 	s.cacheLock.Unlock()
+	vsAgeLogDir(e.logDir, d)
+}
+
+// vsAgeLogDir: every record of the receive log below logDir is d older (time stamp and day file)
+func vsAgeLogDir(logDir string, d time.Duration) {
 	type rec struct {
 		line string
 		t    time.Time
 	}
 	var recs []rec
 	var files []string
-	filepath.Walk(e.logDir, func(p string, info os.FileInfo, err error) error {
+	filepath.Walk(logDir, func(p string, info os.FileInfo, err error) error {
 		if err != nil || info.IsDir() {
 			return nil
 		}
@@ -496,7 +533,7 @@ func vsAgeAll(e *vsEnv, d time.Duration) {
 	}
 	sort.SliceStable(recs, func(i, j int) bool { return recs[i].t.Before(recs[j].t) })
 	for _, r := range recs {
-		p := filepath.Join(e.logDir, fmt.Sprintf("%04d%02d", r.t.Year(), r.t.Month()), fmt.Sprintf("%02d", r.t.Day()))
+		p := filepath.Join(logDir, fmt.Sprintf("%04d%02d", r.t.Year(), r.t.Month()), fmt.Sprintf("%02d", r.t.Day()))
 		os.MkdirAll(filepath.Dir(p), 0o755)
 		fh, err := os.OpenFile(p, os.O_APPEND|os.O_CREATE|os.O_WRONLY, 0o644)
 		if err != nil {
@@ -739,6 +776,52 @@ func verifStageMatrix2(r *gen.Rand, kind, variant int) []vsOp {
 		recv(f, 0, len(f.content))
 	}
 	names := [][2]string{{"site/data.bin", "site/next.bin"}, {"a", "b"}, {"g.1", "g.2"}, {"d/e/x", "d/y"}}[r.Intn(4)]
+	if sel(15, 1, 16) {
+		// (p) the validators have a backlog; version A of a name arrives completely and waits for its hash
+		// check; the source is rewritten and version B of the SAME name arrives completely too (its bytes
+		// replace A's in the staged file) before A was looked at; then the validators work the queue off
+		A := mk(names[0], "", 4+r.Intn(8))
+		B := mk(names[0], "", 4+r.Intn(8))
+		if pickN(2) == 1 {
+			// same size
+			B = mk(names[0], "", len(A.content))
+		}
+		ops = append(ops, vsOp{kind: "VH"})
+		whole(A)
+		prep(B)
+		hb := len(B.content) / 2
+		recv(B, 0, hb)
+		recv(B, hb, len(B.content))
+		ops = append(ops, vsOp{kind: "VR"}, vsOp{kind: "ST"},
+			vsOp{kind: "SV", name: A.name, num: -3600, part: vsPart{hash: A.hash}},
+			vsOp{kind: "SV", name: B.name, num: -3600, part: vsPart{hash: B.hash}})
+		// told "failed" / "unknown", the sender sends B again
+		whole(B)
+		ops = append(ops, vsOp{kind: "ST"}, vsOp{kind: "SV", name: B.name, num: -3600, part: vsPart{hash: B.hash}})
+		return ops
+	}
+	if sel(14, 1, 15) {
+		// (o) ONE cleaning run meets two partials stalled for more than a day: a late duplicate of a version
+		// that is known from the receive log only (rightly removed) and the first half of a file that was
+		// never delivered (must stay) - the stray visited first (variant 0) or second (variant 1)
+		stray, inflight := "a/delivered.dat", "b/inflight.dat"
+		if pickN(2) == 1 {
+			stray, inflight = "b/delivered.dat", "a/inflight.dat"
+		}
+		N1 := mk(stray, "", 4+r.Intn(6))
+		whole(N1)
+		ops = append(ops, vsOp{kind: "ST"}, vsOp{kind: "AA", num: 259200}, vsOp{kind: "RS"})
+		prep(N1)
+		recv(N1, 0, len(N1.content)/2)
+		F := mk(inflight, "", 4+r.Intn(8))
+		h := len(F.content) / 2
+		prep(F)
+		recv(F, 0, h)
+		ops = append(ops, vsOp{kind: "AG", name: N1.name}, vsOp{kind: "AG", name: F.name}, vsOp{kind: "CL"}, vsOp{kind: "SC"})
+		recv(F, h, len(F.content))
+		ops = append(ops, vsOp{kind: "ST"}, vsOp{kind: "SQ", name: F.name, num: -3600})
+		return ops
+	}
 	if sel(13, 1, 14) {
 		// (n) a file is held for its predecessor; a NEW version of it arrives completely but damaged and fails
 		// validation (its complete body and companion stay staged, no partial is left); the receiver
@@ -1359,7 +1442,7 @@ func TestVerifStage(t *testing.T) {
 		t.Skip("VERIF_OUT not set")
 	}
 	defer done()
-	log.InitExternal(&mock.Logger{DebugMode: false})
+	log.InitExternal(&mock.Logger{DebugMode: os.Getenv("VERIF_STAGE_DEBUG") != ""})
 	tmp := os.Getenv("VERIF_TMP")
 	if tmp == "" {
 		tmp = t.TempDir()
@@ -1378,9 +1461,9 @@ func TestVerifStage(t *testing.T) {
 			N = gen.EnvInt("VERIF_STAGE_RANDOM", 5000)
 		}
 		for c := 0; c < N; c++ {
-			if c < 140 {
+			if c < 160 {
 				// every directed scenario 10 times, its main alternatives in turn
-				cases = append(cases, verifStageMatrix2(root.Sub(uint64(c)), c%14, c/14))
+				cases = append(cases, verifStageMatrix2(root.Sub(uint64(c)), c%16, c/16))
 				continue
 			}
 			cases = append(cases, verifStageGen(root.Sub(uint64(c))))
